@@ -215,7 +215,7 @@ Qed.
 Lemma first_free_total t nx : nx < 65536 -> NoDup (keys t) -> table_full t = false ->
   alloc t nx <> None.
 Proof.
-  intros Hn Hnd Hfull E. unfold alloc in E. unfold table_full in Hfull.
+  intros Hn Hnd Hfull E. unfold alloc in E. unfold table_full, TABLE_CAP in Hfull.
   pose proof (first_free_none t _ nx Hn E) as Hbusy.
   set (len := List.length t) in *.
   set (l1 := map (fun d => (nx + N.of_nat d) mod 65536) (seq 0 (S len))).
